@@ -218,7 +218,7 @@ func (v *Vue) evalPipe(ctx VueContext, expr pipeExpr) (any, error) {
 	// Resolve initial value
 	var val any
 	var ok bool
-	val, ok = ctx.stack.Resolve(expr.initial)
+	val, ok = v.resolveOperand(ctx, expr.initial)
 	if !ok {
 		if len(expr.segments) > 0 {
 			val = nil // Pass nil to first segment filter
@@ -237,6 +237,21 @@ func (v *Vue) evalPipe(ctx VueContext, expr pipeExpr) (any, error) {
 	}
 
 	return val, nil
+}
+
+// resolveOperand resolves a variable path. A path the walker cannot follow because one of its
+// steps is computed - an index given by a variable (items[i], m[key].n) or a parenthesised
+// operand - is evaluated as an expression, as it is in conditions.
+func (v *Vue) resolveOperand(ctx VueContext, expr string) (any, bool) {
+	if val, ok := ctx.stack.Resolve(expr); ok {
+		return val, true
+	}
+	if strings.ContainsAny(expr, "[(") {
+		if val, err := v.exprEval.Eval(expr, v.exprEnv(ctx)); err == nil && val != nil {
+			return val, true
+		}
+	}
+	return nil, false
 }
 
 // callNeedsEvaluator reports whether a call that is a whole expression has to be evaluated
@@ -451,7 +466,7 @@ func (v *Vue) resolveArgument(ctx VueContext, arg string) any {
 	}
 
 	// Try to resolve as variable
-	if val, ok := ctx.stack.Resolve(arg); ok {
+	if val, ok := v.resolveOperand(ctx, arg); ok {
 		return val
 	}
 
